@@ -389,6 +389,87 @@ Example deliver_monitor_example :
      [mk_dobs 1%N "a" 1%N true true; mk_dobs 2%N "b" 1%N true true]) = [(9, 1, 0); (9, 2, 0)]%N.
 Proof. vm_compute. repeat split. Qed.
 
+(* -- root package, call sequences: calls interleaved with LATER Trust / Distrust calls on one running peer (codes 1, 11) -- *)
+
+(* Trust follows later Trust / Distrust calls, as seen through the RPC authorisation: for every trust mode (raft; crdt with any
+   "*" flag, configured list and earlier history), every remote caller, every endpoint NAME and every sequence of (call | Trust |
+   Distrust) steps of any length, the verdict of the model on a call standing anywhere in the sequence (after `pre`, before `post`)
+   is authF with the trust state AT THAT MOMENT: a caller not trusted then is refused on every endpoint that is not open and a
+   local-only endpoint is refused, whatever was answered earlier; a trusted_spec endpoint answers exactly the current trust *)
+Theorem auth_follows_trust_changes m caller ep pre p post : caller <> 0%N ->
+  let mt := mode_after m pre in
+  let v := seq_model_call caller ep mt in
+  seq_annot (seq_model_call caller ep) m (pre ++ SCall p :: post)%list =
+    (seq_annot (seq_model_call caller ep) m pre ++ SCall v :: seq_annot (seq_model_call caller ep) mt post)%list /\
+  v = authorize policy (trust_of mt caller) ep /\
+  (trust_of mt caller = false -> ~ In ep open_spec -> v = false) /\
+  (In ep local_only_spec -> v = false) /\
+  (In ep trusted_spec -> v = trust_of mt caller) /\
+  (In ep open_spec -> v = true).
+Proof. exact (auth_follows_trust_changes_l m caller ep pre p post). Qed.
+Print Assumptions auth_follows_trust_changes.
+
+(* the state at that moment: in crdt mode the configured state with the earlier history followed by the operations of the prefix
+   (so trust_follows_history decides it: the last operation on the caller, else the configuration); raft trusts everyone throughout *)
+Theorem trust_state_after_steps star l h pre q :
+  trust_of (mode_after (MCrdt star l h) pre) q = trust_crdt (mk_crdt_cfg star 0%N l) (h ++ ops_of pre)%list q /\
+  trust_of (mode_after MRaft pre) q = true.
+Proof. exact (trust_state_after_steps_l star l h pre q). Qed.
+Print Assumptions trust_state_after_steps.
+
+(* every trust mode, caller, endpoint name, sequence: the sequence annotated with the model's own answers raises no code *)
+Theorem authseq_model_passes_monitor id m caller ep steps :
+  check_case (id, CAuthSeq m caller ep (seq_annot (seq_model_call caller ep) m steps)) = [].
+Proof. exact (authseq_model_passes_monitor_l id m caller ep steps). Qed.
+Print Assumptions authseq_model_passes_monitor.
+
+(* no code 11 on an observed sequence: at every call, a remote caller that was not trusted at the time of the call was refused
+   unless the endpoint is an open one, a local-only endpoint was refused, and a caller trusted at the time of the call was let in
+   on every trusted_spec endpoint - a stale trust decision fails in either direction *)
+Theorem authseq_monitor_sound id m caller ep steps :
+  (forall c, In c (check_case (id, CAuthSeq m caller ep steps)) -> snd (fst c) <> 11%N) -> caller <> 0%N ->
+  forall pre p post, steps = (pre ++ SCall p :: post)%list ->
+  let mt := mode_after m pre in
+  (trust_of mt caller = false -> ~ In ep open_spec -> p = false) /\
+  (In ep local_only_spec -> p = false) /\
+  (trust_of mt caller = true -> In ep trusted_spec -> p = true).
+Proof. exact (authseq_monitor_sound_l id m caller ep steps). Qed.
+Print Assumptions authseq_monitor_sound.
+
+(* no code 1: every observed answer is the model's, with the trust state at the time of the call *)
+Theorem authseq_agreement_sound id m caller ep steps :
+  (forall c, In c (check_case (id, CAuthSeq m caller ep steps)) -> snd (fst c) <> 1%N) ->
+  seq_annot (seq_model_call caller ep) m steps = steps /\
+  forall pre p post, steps = (pre ++ SCall p :: post)%list ->
+    p = call_allowed policy (N.eqb caller 0) (trust_of (mode_after m pre) caller) ep.
+Proof. exact (authseq_agreement_sound_l id m caller ep steps). Qed.
+Print Assumptions authseq_agreement_sound.
+
+(* non-vacuity: peer 1 is configured as trusted, calls a trusted endpoint (let in), is distrusted, calls again (refused), is
+   trusted again (let in); the other direction for peer 2; the memoised verdict of seeded change C07d - still let in after
+   Distrust - raises codes 1 and 11, still refused after Trust raises 1 and 11, and on an open / a local-only endpoint the
+   sequence changes nothing *)
+Example authseq_monitor_example :
+  let m := MCrdt false [1%N] [] in
+  let shape := [SCall false; SOp (TDistrust 1%N); SCall false; SOp (TTrust 1%N); SCall false] in
+  trust_of m 1%N = true /\ trust_of (mode_after m [SCall true; SOp (TDistrust 1%N)]) 1%N = false /\
+  mem_str "Consensus.LogPin" trusted_spec = true /\ mem_str "Consensus.LogPin" open_spec = false /\
+  seq_annot (seq_model_call 1%N "Consensus.LogPin") m shape
+    = [SCall true; SOp (TDistrust 1%N); SCall false; SOp (TTrust 1%N); SCall true] /\
+  seq_annot (seq_model_call 2%N "Consensus.LogPin") (MCrdt false [] [])
+      [SCall true; SOp (TTrust 2%N); SCall false; SOp (TDistrust 2%N); SCall true]
+    = [SCall false; SOp (TTrust 2%N); SCall true; SOp (TDistrust 2%N); SCall false] /\
+  seq_annot (seq_model_call 1%N "Cluster.ID") m shape
+    = [SCall true; SOp (TDistrust 1%N); SCall true; SOp (TTrust 1%N); SCall true] /\
+  seq_annot (seq_model_call 1%N "Cluster.Pins") m shape = shape /\
+  seq_annot (seq_model_call 1%N "Consensus.LogPin") MRaft shape
+    = [SCall true; SOp (TDistrust 1%N); SCall true; SOp (TTrust 1%N); SCall true] /\
+  check_case (7%N, CAuthSeq m 1%N "Consensus.LogPin" [SCall true; SOp (TDistrust 1%N); SCall true]) = [(7, 1, 0); (7, 11, 0)]%N /\
+  check_case (7%N, CAuthSeq (MCrdt false [] []) 2%N "Consensus.LogPin" [SCall false; SOp (TTrust 2%N); SCall false])
+    = [(7, 1, 0); (7, 11, 0)]%N /\
+  check_case (7%N, CAuthSeq m 1%N "Consensus.LogPin" [SCall true; SOp (TDistrust 1%N); SCall false]) = [].
+Proof. vm_compute. repeat split. Qed.
+
 (* -- every case kind at once -- *)
 (* on ANY case (any kind, input, observation): if code 1 is absent - the implementation did what the model does - no code at all
    is produced. The specification-level monitors (code 2) never alarm on behaviour the model allows (modelled c: every kind
